@@ -32,9 +32,9 @@ func (p *Prog) statusSites() []statusSite {
 				cc := ci.Common()
 				var key, recv ssa.Value
 				switch {
-				case cc.IsInvoke() && cc.Method.Name() == "SetStatus" && len(cc.Args) == 2:
+				case cc.IsInvoke() && objName(cc.Method) == "SetStatus" && len(cc.Args) == 2:
 					key, recv = cc.Args[0], cc.Value
-				case !cc.IsInvoke() && cc.StaticCallee() != nil && cc.StaticCallee().Name() == "SetStatus" && cc.StaticCallee().Signature.Recv() != nil && len(cc.Args) == 3:
+				case !cc.IsInvoke() && cc.StaticCallee() != nil && objName(cc.StaticCallee()) == "SetStatus" && cc.StaticCallee().Signature.Recv() != nil && len(cc.Args) == 3:
 					key, recv = cc.Args[1], cc.Args[0]
 				default:
 					continue
@@ -46,7 +46,7 @@ func (p *Prog) statusSites() []statusSite {
 				for top.Parent() != nil {
 					top = top.Parent()
 				}
-				out = append(out, statusSite{fn: f, call: ci, key: key, recv: recv, inMethod: top.Name() == "SetStatus" && top.Signature.Recv() != nil})
+				out = append(out, statusSite{fn: f, call: ci, key: key, recv: recv, inMethod: objName(top) == "SetStatus" && top.Signature.Recv() != nil})
 			}
 		}
 	}
@@ -82,7 +82,7 @@ func isRcptParam(prm *ssa.Parameter) bool {
 	if f.Parent() != nil || f.Signature.Recv() == nil {
 		return false
 	}
-	if f.Name() != "AddRcpt" && f.Name() != "Rcpt" {
+	if objName(f) != "AddRcpt" && objName(f) != "Rcpt" {
 		return false
 	}
 	for _, q := range f.Params[1:] {
@@ -138,7 +138,7 @@ func checkC09(c *Check) {
 		stores := p.FieldStores(fv)
 		owner := fieldOwnerName(fv)
 		if len(stores) == 0 {
-			c.Hold("K1f", owner+"."+fv.Name(), fv.Pos(), false, "undecided: recipient list has no store")
+			c.Hold("K1f", owner+"."+objName(fv), fv.Pos(), false, "undecided: recipient list has no store")
 			continue
 		}
 		for i, st := range stores {
@@ -152,7 +152,7 @@ func checkC09(c *Check) {
 					bad = "the list receives " + o.String() + " instead of the unmodified recipient parameter (results are later reported under that other spelling)"
 				}
 			}
-			c.Hold("K1f", owner+"."+fv.Name()+":store"+itoa(i+1), st.Pos(), bad == "", bad)
+			c.Hold("K1f", owner+"."+objName(fv)+":store"+itoa(i+1), st.Pos(), bad == "", bad)
 		}
 	}
 
@@ -165,21 +165,21 @@ func checkC09(c *Check) {
 		}
 		perTxn := allocatedOnlyInStart(p, ownerT)
 		if perTxn {
-			c.Hold("K2", ownerT.Obj().Name()+"."+fv.Name(), fv.Pos(), true, "")
+			c.Hold("K2", ownerT.Obj().Name()+"."+objName(fv), fv.Pos(), true, "")
 			continue
 		}
 		// needs a reset in its Mail method
 		reset := false
 		for _, st := range p.FieldStores(fv) {
 			top := topFunc(st.Parent())
-			if top.Name() != "Mail" && top.Name() != "Reset" && top.Name() != "Start" {
+			if objName(top) != "Mail" && objName(top) != "Reset" && objName(top) != "Start" {
 				continue
 			}
 			if es := pc.elemsOf(st.Val, st, 0, map[ssa.Value]bool{}); len(es) == 0 {
 				reset = true
 			}
 		}
-		c.Hold("K2", ownerT.Obj().Name()+"."+fv.Name(), fv.Pos(), reset, "objects of type "+ownerT.Obj().Name()+" are reused across transactions (connection pool) but the recipient list is never reset when a transaction starts: a reused connection reports the recipients of earlier messages")
+		c.Hold("K2", ownerT.Obj().Name()+"."+objName(fv), fv.Pos(), reset, "objects of type "+ownerT.Obj().Name()+" are reused across transactions (connection pool) but the recipient list is never reset when a transaction starts: a reused connection reports the recipients of earlier messages")
 	}
 
 	// ---- K3a: accept-once
@@ -187,7 +187,7 @@ func checkC09(c *Check) {
 	for _, fv := range listFields {
 		for i, st := range p.FieldStores(fv) {
 			top := topFunc(st.Parent())
-			if top.Name() != "AddRcpt" && top.Name() != "Rcpt" {
+			if objName(top) != "AddRcpt" && objName(top) != "Rcpt" {
 				continue
 			}
 			fi := p.DeclOf(top.Object().(*types.Func))
@@ -208,7 +208,7 @@ func checkC09(c *Check) {
 				}
 				return true
 			})
-			c.Hold("K3a", fi.Name()+":"+fv.Name()+":append"+itoa(i+1), st.Pos(), !inLoop, "the client's address is appended inside a loop (once per rewritten address and target): with two targets or a 1→N rewrite one client recipient receives several results (the LMTP server library panics on surplus results)")
+			c.Hold("K3a", fi.Name()+":"+objName(fv)+":append"+itoa(i+1), st.Pos(), !inLoop, "the client's address is appended inside a loop (once per rewritten address and target): with two targets or a 1→N rewrite one client recipient receives several results (the LMTP server library panics on surplus results)")
 		}
 	}
 
@@ -217,7 +217,7 @@ func checkC09(c *Check) {
 	for _, fv := range listFields {
 		for i, st := range p.FieldStores(fv) {
 			top := topFunc(st.Parent())
-			if top.Name() != "AddRcpt" && top.Name() != "Rcpt" {
+			if objName(top) != "AddRcpt" && objName(top) != "Rcpt" {
 				continue
 			}
 			fn, _ := top.Object().(*types.Func)
@@ -263,7 +263,7 @@ func checkC09(c *Check) {
 					msg = "the recipient is recorded although the next hop refused it: later per-recipient results are matched against a list that contains recipients the next hop never accepted (statuses shift to the wrong recipient): " + r.F.Describe(path)
 				}
 			}
-			c.Hold("K3d", fi.Name()+":"+fv.Name()+":store"+itoa(i+1), st.Pos(), msg == "", msg)
+			c.Hold("K3d", fi.Name()+":"+objName(fv)+":store"+itoa(i+1), st.Pos(), msg == "", msg)
 		}
 	}
 
@@ -742,7 +742,7 @@ func c09Translate(c *Check, pc *provCtx, sites []statusSite) {
 			for _, o := range os {
 				switch {
 				case o.Kind == "param":
-				case o.Kind == "maplookup" && o.Field != nil && o.Field.Name() == "originalRcpts":
+				case o.Kind == "maplookup" && o.Field != nil && objName(o.Field) == "originalRcpts":
 					sawLookup = true
 					for _, ko := range o.Key {
 						if ko.Kind != "param" {
@@ -773,7 +773,7 @@ func c09Translate(c *Check, pc *provCtx, sites []statusSite) {
 				if !ok {
 					continue
 				}
-				if fv := fieldOf(info, ix.X); fv == nil || fv.Name() != "originalRcpts" {
+				if fv := fieldOf(info, ix.X); fv == nil || objName(fv) != "originalRcpts" {
 					continue
 				}
 				okObj := objOf(info, as.Lhs[1])
@@ -929,7 +929,7 @@ func c09Translate(c *Check, pc *provCtx, sites []statusSite) {
 		}
 		outer := false
 		for _, o := range pc.origins(s.key, s.call, 0, map[ssa.Value]bool{}) {
-			if o.Kind == "listelem" && o.Field.Name() == "recipients" {
+			if o.Kind == "listelem" && objName(o.Field) == "recipients" {
 				outer = true
 			}
 		}
